@@ -1,3 +1,26 @@
+//! mc-text: bounded-exhaustive checks of the `rten-text` crate.
+//!
+//!   mc-text <C27|C28|C29|C30> [quick|thorough] [--replay <file>]
+//!
+//! C27 byte-level BPE round trip + offsets, C28 BPE merging vs. textbook BPE,
+//! C29 chunked encoding (limits, windows, overlap, coverage), C30 normalizer
+//! offset maps. Every check enumerates a stated finite box completely and
+//! drives the real rten-text code through its public API.
+
+mod c27;
+mod c28;
+mod c29;
+mod c30;
+mod refmodel;
+mod util;
+
 fn main() {
-    vp_core::machinery_error("engine not built yet");
+    let prop = std::env::args().nth(1).unwrap_or_default();
+    match prop.as_str() {
+        "C27" => c27::run(vp_core::Ctx::from_env("C27")),
+        "C28" => c28::run(vp_core::Ctx::from_env("C28")),
+        "C29" => c29::run(vp_core::Ctx::from_env("C29")),
+        "C30" => c30::run(vp_core::Ctx::from_env("C30")),
+        _ => vp_core::machinery_error("mc-text: unknown property (expected C27, C28, C29 or C30)"),
+    }
 }
